@@ -139,10 +139,18 @@ fn main() {
         replay(&ctx, &prop, &case);
         ctx.finish(json!({"replay": path.display().to_string()}), vec![]);
     }
-    let cap_total = Duration::from_secs(if thorough { 1200 } else { 40 });
     // model parameters that are measured on the real code rather than transcribed
     let catchup_mode = conform::probe_catchup_mode();
-    let cfgs: Vec<(&'static str, Cfg)> = configs(thorough).into_iter().map(|(n, mut c)| { c.catchup_mode = catchup_mode; (n, c) }).collect();
+    // The quick tier searches the five-replica configuration as well when the measured catch-up rule is not the one
+    // the three-replica configurations were sized for (appending at the coordinator's sequence): with any other rule
+    // the smallest counterexample needs a quorum of 3 of 5, and on a tree with the usual rule the quick tier pays nothing.
+    let widen_quick = !thorough && catchup_mode != model::CatchupMode::CoordinatorSequence;
+    let cap_total = Duration::from_secs(if thorough { 1200 } else if widen_quick { 400 } else { 40 });
+    let mut base = configs(thorough);
+    if widen_quick {
+        base.extend(configs(true).into_iter().filter(|(n, _)| n.starts_with("5 nodes")));
+    }
+    let cfgs: Vec<(&'static str, Cfg)> = base.into_iter().map(|(n, mut c)| { c.catchup_mode = catchup_mode; (n, c) }).collect();
     // debugging aid: VERIF_PROTOX_ONLY=<substring> restricts the run to matching configurations (the evidence then says so)
     let only = std::env::var("VERIF_PROTOX_ONLY").ok();
     let cfgs: Vec<(&'static str, Cfg)> = cfgs.into_iter().filter(|(n, _)| only.as_ref().map(|o| n.contains(o.as_str())).unwrap_or(true)).collect();
@@ -214,6 +222,7 @@ fn main() {
         "determinism": determinism_checked,
         "restricted_to_configurations_matching": only,
         "model_parameters_measured_on_the_code": {"where_a_catch_up_response_appends_a_commit": catchup_mode},
+        "quick_tier_widened_to_five_replicas_because_of_the_measured_rule": widen_quick,
         "conformance": {
             "distinct_per_node_projections_collected": projs.len(),
             "replayed_against_real_replicator": conf.replayed,
